@@ -148,14 +148,24 @@ Definition start_begin (c : cfg) (s : st) : st * list dep :=
   (MkSt (now s) (ops s) (srs s) (hb s) Starting ao ar (completed so) so' (ticker s) (holdw s) (writing s) None,
    [MkDep ao ar (map (fun _ => completed so) ao) true]).
 
-(* job.evaluateClusterStatus *)
+(* try to form and start a new assembly: Registry.NewAssembly + `go start()` *)
+Definition try_assemble (c : cfg) (s : st) : st * list dep :=
+  if Nat.ltb (length (srs s)) (wc c) || Nat.ltb (length (ops s)) (wc c) then (s, [])
+  else start_begin c s.
+
+(* job.evaluateClusterStatus. When a running assembly turns out unhealthy the job pauses; WHEN the next assembly is
+   started - in this same evaluation, from standbys already registered, or at the next membership event (what the code
+   does today) - is not constrained by the property: it is an input, like the choice of nodes ([pick] = Some: the next
+   possible assembly is taken at once, with that choice). *)
 Definition evaluate (c : cfg) (s0 : st) : st * list dep :=
   let s := purge c s0 in
   match stat s with
-  | Running => if healthy s then (s, []) else (set_stat s Paused, [])
-  | Init | Paused =>
-      if Nat.ltb (length (srs s)) (wc c) || Nat.ltb (length (ops s)) (wc c) then (s, [])
-      else start_begin c s
+  | Running => if healthy s then (s, [])
+               else match pick s with
+                    | Some _ => try_assemble c (set_stat s Paused)
+                    | None => (set_stat s Paused, [])
+                    end
+  | Init | Paused => try_assemble c s
   | Starting => (s, [])
   end.
 
